@@ -225,6 +225,53 @@ def count_f1_shape(run: Run, s, acc):
             acc["reads_after_that_revert"] += 1
 
 
+def new_sc():
+    return dict(histories_with_blocks=0, blocks=0, blocks_left_by_an_exception=0, nested_blocks=0,
+                blocks_entered_with_a_fork_pending=0, reverts_after_a_block_left_by_an_exception=0, reads_after_those_reverts=0,
+                blocks_whose_previous_mode_is_not_REF=0)
+
+
+def directed_scoped(run: Run):
+    """The shape of the seeded defect "auto_fork without try/finally", on c = a + b, for every previous mode, every mode of the block
+    and every way the body can raise: a fork is pending; `with auto_fork(m)`: read, <raises>, (skipped assignment); look; b = 20;
+    read c; revert(); read c, a, b.  Plus the two histories proved in Coq (State/StateScopedExecProofs.v: sc_ops, nested_ops)."""
+    G = T.F1_GRAPH
+    G.build()
+    raisers = {"unknown name": [["get", 0, T.UNKNOWN]], "non-settable assignment": [["set", 0, "c", 5]],
+               "read needing an unset variable": [["set", 0, "a", None], ["get", 0, "c"]],
+               "revert without fork": [["mode", 0, None], ["set", 0, "b", 3], ["revert", 0]],
+               "index error (crash class)": [["put", 0, "a", 5, 1, True]], "no exception": []}
+    sessions, metas = [], []
+    sc = new_sc()
+    for prev in ("REF", "COPY", None):
+        for bm in (None, "REF", "COPY"):
+            for rname, rops in raisers.items():
+                ops = [["mode", 0, prev], ["set", 0, "a", 1], ["set", 0, "b", 10], ["get", 0, "c"], ["set", 0, "a", 2],
+                       ["scoped", 0, bm, [["get", 0, "c"]] + rops + [["set", 0, "b", 99]]], ["look", 0],
+                       ["set", 0, "b", 20], ["get", 0, "c"], ["revert", 0], ["get", 0, "c"], ["get", 0, "a"], ["get", 0, "b"]]
+                s = T.run_ops(G, ops, fx=FX)
+                run.case(("directed-scoped", prev, bm, rname), nontrivial=True)
+                run.count("directed_scoped_block", rname)
+                classify(run, G, s)
+                scoped_oracle(run, G, s, sc)
+                sessions.append(s)
+                metas.append(dict(stream="directed-scoped", case=len(sessions), previous_mode=prev, block_mode=bm, raises=rname))
+    nested = [["mode", 0, "REF"], ["set", 0, "a", 1], ["set", 0, "b", 10], ["clone", 0, False, True],
+              ["scoped", 0, "COPY", [["scoped", 1, None, [["set", 1, "a", 7], ["get", 1, T.UNKNOWN], ["set", 1, "a", 8]]], ["set", 0, "a", 3]]],
+              ["look", 0], ["look", 1], ["get", 1, "c"], ["get", 0, "c"], ["revert", 1]]
+    s = T.run_ops(G, nested, fx=FX)
+    run.case(("directed-scoped", "nested"), nontrivial=True)
+    classify(run, G, s)
+    scoped_oracle(run, G, s, sc)
+    sessions.append(s)
+    metas.append(dict(stream="directed-scoped-nested", case=len(sessions)))
+    run.extra["directed_scoped_histories"] = sc
+    correspond(run, "dscoped", sessions, metas)
+    s0 = sessions[0]
+    run.sample(dict(kind="exception leaving `with state.auto_fork(None)` while a fork is pending (real State)", ops=[r[0] for r in s0.records],
+                    trace=s0.events_json()))
+
+
 def scoped_oracle(run: Run, G, s, sc):
     """Implementation-side oracles for `with state.auto_fork(m)` blocks (no Coq involved):
     (1) after a block — left normally or by an exception — `auto_fork_type` is what it was before the block (white box);
@@ -338,9 +385,7 @@ def toy_histories(run: Run, n_hist):
     sessions, metas = [], []
     f1 = dict(histories_with_unforked_assignment_over_pending_fork=0, histories_with_revert_after_it=0,
               histories_with_read_after_that_revert=0, reads_after_that_revert=0, revert_outcomes={})
-    sc = dict(histories_with_blocks=0, blocks=0, blocks_left_by_an_exception=0, nested_blocks=0,
-              blocks_entered_with_a_fork_pending=0, reverts_after_a_block_left_by_an_exception=0, reads_after_those_reverts=0,
-              blocks_whose_previous_mode_is_not_REF=0)
+    sc = new_sc()
     for h in range(n_hist):
         rng = run.rng("toy", h)
         malformed = rng.random() < 0.3
@@ -457,8 +502,11 @@ def exhaustive_diamond(run: Run, max_len):
     G.build()
     alphabet = [["get", 0, "d"], ["get", 0, "b"], ["set", 0, "a", [1, 2]], ["put", 0, "a", None, [3, -1], True],
                 ["put", 0, "a", 1, 2, True], ["revert", 0], ["revmask", 0, [True, False]], ["mode", 0, "REF"], ["mode", 0, None],
-                ["clone", 0, False, True], ["get", 1, "d"], ["set", 1, "a", [0, 5]], ["revert", 1], ["precompute", 0], ["set", 0, "a", None]]
+                ["clone", 0, False, True], ["get", 1, "d"], ["set", 1, "a", [0, 5]], ["revert", 1], ["precompute", 0], ["set", 0, "a", None],
+                ["scoped", 0, None, [["put", 0, "a", None, [1, 1], True], ["get", 0, T.UNKNOWN]]],
+                ["scoped", 0, "COPY", [["set", 0, "a", [4, 4]], ["set", 0, "d", [0, 0]]]], ["look", 0]]
     sessions, metas = [], []
+    sc = new_sc()
     for L in range(1, max_len + 1):
         for combo in itertools.product(range(len(alphabet)), repeat=L):
             ops = [alphabet[c] for c in combo]
@@ -470,6 +518,7 @@ def exhaustive_diamond(run: Run, max_len):
             metas.append(dict(stream="exhaustive-diamond", case=len(sessions)))
             run.case(("diamond", combo), nontrivial=T.nontrivial(ops))
             classify(run, G, s)
+            scoped_oracle(run, G, s, sc)
     run.extra["exhaustive_diamond"] = dict(alphabet=alphabet, max_len=max_len, histories=len(sessions))
     correspond(run, "diamond", sessions, metas)
 
@@ -664,6 +713,7 @@ def main(run: Run):
                     "torch element-wise kernels, index_put, deepcopy (modelled, not verified)"]
     directed(run)
     directed_nonfinite(run)
+    directed_scoped(run)
     toy_histories(run, 6000 if thorough else 1500)
     if thorough:
         exhaustive_diamond(run, 3)
